@@ -13,7 +13,7 @@ import (
 	"github.com/jub0bs/cors/cfgerrors"
 )
 
-// C19 - cfgerrors.All yields exactly the leaves and honours early exit.
+// C19 - cfgerrors.All yields exactly the leaves and honours early exit (also when one iterator value is used repeatedly).
 
 // etree is a join tree by construction: a leaf (Kids == nil) or a join of Kids.
 type etree struct {
@@ -170,6 +170,37 @@ func c19Check(r *Run, l *Local, t *etree) {
 			}
 		}()
 	}
+	// ONE iterator value used again and again (an iter.Seq is a function value: nothing says it is single-use): a full
+	// traversal, then for every break position an early exit followed by a full traversal, all on the same value
+	// (lesson of seeded change C19-i: traversal state kept in the closure that All returns instead of per traversal)
+	seq := cfgerrors.All(err)
+	full := func(stage string, k int) bool {
+		var again []int
+		for e := range seq {
+			again = append(again, leafID(e))
+		}
+		l.evals++
+		if !equalInts(sortedInts(again), sortedInts(want)) {
+			r.Violate("reused-iterator", "flatten-vs-All", fmt.Sprintf("tree %s: the iterator value returned by one call of All, ranged over again %s, yielded leaves %v; the tree has leaves %v", t, stage, again, want), c19Case{t, k})
+			return false
+		}
+		return true
+	}
+	if !full("after a full traversal (first pass)", -1) || !full("after a full traversal", -1) {
+		return
+	}
+	for k := 0; k < n; k++ {
+		seen := 0
+		for range seq {
+			seen++
+			if seen == k+1 {
+				break
+			}
+		}
+		if !full(fmt.Sprintf("after a `break` at element %d", k+1), k) {
+			return
+		}
+	}
 }
 
 // enumTrees enumerates all plane trees with exactly n leaves and depth <= d whose internal nodes are joins (arity >= 1).
@@ -228,7 +259,7 @@ func leafCountByUnwrap(err error) int {
 
 func TestVerif_C19(t *testing.T) {
 	r := newRun(t, "C19")
-	r.Rule("exhaustive: every plane tree with <= N leaves and depth <= D whose internal nodes are errors.Join calls (joins of one included; a variant of each tree with nil arguments interleaved) x every break position, both by calling the iter.Seq with a counting yield and by for-range + break; " +
+	r.Rule("exhaustive: every plane tree with <= N leaves and depth <= D whose internal nodes are errors.Join calls (joins of one included; a variant of each tree with nil arguments interleaved) x every break position, both by calling the iter.Seq with a counting yield and by for-range + break, and ONE iterator value traversed repeatedly (full, then after an early exit at every position); " +
 		"PRNG trees up to 10^4 leaves / depth 10^4; the error population of the C05 generator (yield count = leaf count by an own Unwrap walk, within the expected number of violations). evaluation = one traversal; non-trivial = (tree, break position) with >= 2 leaves, distinct by construction")
 	r.Assume("leaves are pointers to exported cfgerrors types carrying unique ids; the yielded order is unspecified, so multisets are compared")
 
